@@ -157,6 +157,31 @@ func splitForRepeats(r *fw.Rand, lf *gen.Leaf, v reflect.Value) ([]string, refle
 
 // narrowingProbe returns an out-of-range literal for leaves narrower than their flag's carrier type.
 func narrowingProbe(lf *gen.Leaf) string {
+	if lf.Type.Kind() == reflect.Slice && lf.Caps&gen.CapTextU == 0 {
+		// an element just outside the element type's range, after a valid one
+		var lit string
+		switch lf.Type.Elem().Kind() {
+		case reflect.Int8:
+			lit = "128"
+		case reflect.Int16:
+			lit = "32768"
+		case reflect.Int32:
+			lit = "2147483648"
+		case reflect.Int, reflect.Int64:
+			lit = "9223372036854775808"
+		case reflect.Uint8:
+			lit = "256"
+		case reflect.Uint16:
+			lit = "65536"
+		case reflect.Uint32:
+			lit = "4294967296"
+		case reflect.Uint, reflect.Uint64:
+			lit = "18446744073709551616"
+		default:
+			return ""
+		}
+		return "1," + lit
+	}
 	switch lf.Type.Kind() {
 	case reflect.Int8:
 		return "128"
